@@ -242,10 +242,33 @@ def rule_B2(ctx):
                f"{[p.ret.key() for p in p1 if p.ret]} / {[p.ret.key() for p in p2 if p.ret]}", inst=f"offset:{kind}")
     # text form
     ts = ctx.fn(MIDI, "MidiNote.to_string", "B2")
-    t = full(ts)
-    ok = "''.join([scale_degree_string, is_sharp_string, octave_string])" in t and "scale_degree_string = str(self.scale_degree)" in t \
-        and "is_sharp_string = '#' if self.is_sharp else ''" in t and "octave_string = str(self.octave)" in t
-    ctx.ob("B2", ts, "text form = letter, optional '#', octave", ok, "", inst="to_string")
+    from .sem import fmt_parts, path_return_ast as path_return, path_tests, bool_eval
+    ok, det, seen = True, "", set()
+    for p in run_paths(ctx, ts, rule="B2"):
+        if p.end != "return":
+            ok, det = False, f"path ends with {p.end}"
+            continue
+        sharp = None
+        for tst, taken in path_tests(p):
+            v = bool_eval(tst, lambda n: True if norm(n) == "self.is_sharp" else None)
+            if v is None or v == "undef":
+                ok, det = False, f"test `{norm(tst)}` not understood"
+            else:
+                sharp = (v == taken)
+        r = path_return(p)
+        parts = fmt_parts(None, r) if r is not None else None
+        # str(x) and x inside a format are the same text
+        want_t = [("expr", "self.scale_degree"), "#", ("expr", "self.octave")]
+        want_f = [("expr", "self.scale_degree"), ("expr", "self.octave")]
+        if sharp is None:
+            # a conditional expression inside the format: both arms must appear through a recognised idiom
+            ok, det = False, f"text built as `{norm(r) if r is not None else None}` without a decided sharp flag"
+            continue
+        seen.add(sharp)
+        if parts != (want_t if sharp else want_f):
+            ok, det = False, f"is_sharp={sharp}: text parts {parts}"
+    ok = ok and seen == {True, False}
+    ctx.ob("B2", ts, "text form = letter, optional '#', octave", ok, det or f"cases {sorted(seen)}", inst="to_string")
     rg = ctx.prog.assigned(MIDI, "MIDI_NOTE_STR_REGEX", "B2")
     from .util import regex_value
     pat, _fl = regex_value(ctx, rg, m, "B2", f"{MIDI}:MIDI_NOTE_STR_REGEX")
@@ -265,10 +288,18 @@ def rule_B2(ctx):
             ok = ok and all(rx.class_accepts(g3[0][1], ch) for ch in "0123456789") and not any(rx.class_accepts(g3[0][1], ch) for ch in "ABCDEFG# -")
     ctx.ob("B2", rg, "note regex: letter A-G, optional sharp, one octave digit 0-9 (every text to_string prints for octaves 0-9 parses)", ok, pat, inst="note-regex", file=MIDI, qualname="<module>")
     fs = ctx.fn(MIDI, "MidiNote.from_string", "B2")
-    t = full(fs)
-    ok = "scale_degree = ScaleDegree.from_string(matches.groups()[0])" in t and "is_sharp = len(matches.groups()[1]) > 0" in t and "octave = int(matches.groups()[2])" in t \
-        and "cls(scale_degree, is_sharp, octave)" in t and "input.upper().strip()" in t
-    ctx.ob("B2", fs, "from_string reads degree, sharp, octave from the three groups in that order", ok, "", inst="from_string")
+    rets = [p for p in run_paths(ctx, fs, rule="B2") if p.end == "return"]
+    inp = fs.args.args[1].arg
+    mt = f"MIDI_NOTE_STR_REGEX.match(({inp}.upper()).strip())"
+    mt2 = f"MIDI_NOTE_STR_REGEX.match(({inp}.strip()).upper())"
+    def _want(m_):
+        return f"cls(ScaleDegree.from_string(sub(({m_}).groups(),0)),cond(len(sub(({m_}).groups(),1)) > 0),int(sub(({m_}).groups(),2)))"
+    ok = len(rets) >= 1 and all(p.ret is not None and p.ret.key() in (_want(mt), _want(mt2)) for p in rets)
+    # and the no-match case is refused, not defaulted
+    ok = ok and all(any(c in (f"Is({mt},None)", f"Is({mt2},None)") and t is False for c, t, _ in p.conds) or
+                    any(c in (f"IsNot({mt},None)", f"IsNot({mt2},None)") and t is True for c, t, _ in p.conds) for p in rets)
+    ctx.ob("B2", fs, "from_string reads degree, sharp, octave from the three groups in that order", ok,
+           "" if ok else f"{[p.ret.key() if p.ret is not None else None for p in rets]} under {[[(c, t) for c, t, _ in p.conds] for p in rets]}"[:400], inst="from_string")
     sd = ctx.prog.klass(MIDI, "ScaleDegree", "B2")
     mem = ctx.folder.enum_members(sd)
     ok = mem == {"A": 0, "B": 1, "C": 2, "D": 3, "E": 4, "F": 5, "G": 6}
